@@ -14,6 +14,7 @@ def main (args : List String) : IO UInt32 := do
   match args with
   | ["c05"] => Goml.Driver.C05.main; return 0
   | ["c08"] => Goml.Driver.C08.main; return 0
+  | ["c08sim"] => Goml.Driver.C08.mainSim; return 0
   | ["c10"] => Goml.Driver.C10.main; return 0
   | ["c12"] => Goml.Driver.C12.main; return 0
   | ["c15"] => Goml.Driver.C15.main; return 0
